@@ -1,5 +1,19 @@
 // K-ITER: iterator contracts (C14) over an arbitrary well-formed list and an arbitrary
 // next/next_back schedule of len()+2 steps.  Ghost cursors (lo, rem) range over the abstract view.
+// Non-blocking check: Kani's `assert!` assumes its condition afterwards, so the first failing conjunct of a contract
+// would hide every later one on the same path (and with it the verdicts of the other properties that harness serves).
+// `ck!` performs the check on a nondeterministically chosen side branch, so every conjunct is reported independently.
+macro_rules! ck {
+    ($c:expr, $m:literal) => {
+        if kani::any::<bool>() {
+            assert!($c, $m);
+        }
+    };
+    ($c:expr) => {
+        assert!($c)
+    };
+}
+
 use super::harness::{any_lru, Lru, N};
 use super::*;
 use crate::verif_hooks::spec::*;
@@ -21,13 +35,13 @@ macro_rules! entry_iter_harness {
                 let mut it = ($mk)(&mut l);
                 let mut lo = 0usize;
                 let mut rem = pre.n;
-                assert!(it.len() == pre.n && it.size_hint() == (pre.n, Some(pre.n)), "[C14.len] a fresh iterator reports exactly len() items");
+                ck!(it.len() == pre.n && it.size_hint() == (pre.n, Some(pre.n)), "[C14.len] a fresh iterator reports exactly len() items");
                 let mut step = 0;
                 while step < STEPS {
                     let back: bool = kani::any();
                     let got = if back { it.next_back().map(($item)) } else { it.next().map(($item)) };
                     if rem == 0 {
-                        assert!(got.is_none(), "[C14.exhausted] an exhausted iterator stays exhausted, from both ends");
+                        ck!(got.is_none(), "[C14.exhausted] an exhausted iterator stays exhausted, from both ends");
                     } else {
                         let front = back == $rev;
                         let idx = if front { lo } else { lo + rem - 1 };
@@ -35,15 +49,15 @@ macro_rules! entry_iter_harness {
                             lo += 1;
                         }
                         rem -= 1;
-                        assert!(got == Some((pre.k[idx], pre.v[idx])), "[C14.order] next/next_back yield the view's entries in the documented order, none skipped or repeated");
+                        ck!(got == Some((pre.k[idx], pre.v[idx])), "[C14.order] next/next_back yield the view's entries in the documented order, none skipped or repeated");
                     }
-                    assert!(it.size_hint() == (rem, Some(rem)) && it.len() == rem, "[C14.len] size_hint/len are exact after every step");
+                    ck!(it.size_hint() == (rem, Some(rem)) && it.len() == rem, "[C14.len] size_hint/len are exact after every step");
                     step += 1;
                 }
-                assert!(it.count() == rem, "[C14.len] count() is exact");
+                ck!(it.count() == rem, "[C14.len] count() is exact");
             }
             let post = l.verif_abs();
-            assert!(post == pre && l.verif_wf(), "[C13.readonly][C14.readonly] constructing and draining an iterator leaves the cache unchanged");
+            ck!(post == pre && l.verif_wf(), "[C13.readonly][C14.readonly] constructing and draining an iterator leaves the cache unchanged");
             core::mem::forget(l);
         }
     };
@@ -75,13 +89,13 @@ macro_rules! proj_iter_harness {
                 let mut it = ($mk)(&mut l);
                 let mut lo = 0usize;
                 let mut rem = pre.n;
-                assert!(it.len() == pre.n, "[C14.len] a fresh keys/values iterator reports exactly len() items");
+                ck!(it.len() == pre.n, "[C14.len] a fresh keys/values iterator reports exactly len() items");
                 let mut step = 0;
                 while step < STEPS {
                     let back: bool = kani::any();
                     let got = if back { it.next_back().map(|x| *x) } else { it.next().map(|x| *x) };
                     if rem == 0 {
-                        assert!(got.is_none(), "[C14.exhausted] an exhausted keys/values iterator stays exhausted");
+                        ck!(got.is_none(), "[C14.exhausted] an exhausted keys/values iterator stays exhausted");
                     } else {
                         let front = back == $rev;
                         let idx = if front { lo } else { lo + rem - 1 };
@@ -90,14 +104,14 @@ macro_rules! proj_iter_harness {
                         }
                         rem -= 1;
                         let exp: u8 = ($pick)(&pre, idx);
-                        assert!(got == Some(exp), "[C14.proj] keys/values iterators are the projections of the entry iterators, in order");
+                        ck!(got == Some(exp), "[C14.proj] keys/values iterators are the projections of the entry iterators, in order");
                     }
-                    assert!(it.size_hint() == (rem, Some(rem)) && it.len() == rem, "[C14.len] size_hint/len of keys/values iterators are exact after every step");
+                    ck!(it.size_hint() == (rem, Some(rem)) && it.len() == rem, "[C14.len] size_hint/len of keys/values iterators are exact after every step");
                     step += 1;
                 }
-                assert!(it.count() == rem, "[C14.len] count() of keys/values iterators is exact");
+                ck!(it.count() == rem, "[C14.len] count() of keys/values iterators is exact");
             }
-            assert!(l.verif_abs() == pre, "[C13.readonly][C14.readonly] draining a keys/values iterator leaves the cache unchanged");
+            ck!(l.verif_abs() == pre, "[C13.readonly][C14.readonly] draining a keys/values iterator leaves the cache unchanged");
             core::mem::forget(l);
         }
     };
@@ -150,7 +164,7 @@ macro_rules! write_iter_harness {
                 }
             }
             let post = l.verif_abs();
-            assert!(post == exp && l.verif_wf(), "[C14.write][C02.write] writes through a mutable iterator land in the yielded entry, order unchanged");
+            ck!(post == exp && l.verif_wf(), "[C14.write][C02.write] writes through a mutable iterator land in the yielded entry, order unchanged");
             core::mem::forget(l);
         }
     };
@@ -188,13 +202,13 @@ macro_rules! clone_iter_harness {
             }
             let mut c = it.clone();
             let rem = it.len();
-            assert!(c.len() == rem, "[C14.clone] a clone starts where the original stands");
+            ck!(c.len() == rem, "[C14.clone] a clone starts where the original stands");
             // advance the clone arbitrarily: the original must not move
             let back: bool = kani::any();
             let from_clone = if back { c.next_back() } else { c.next() };
-            assert!(it.len() == rem, "[C14.clone] advancing a clone does not advance the original");
+            ck!(it.len() == rem, "[C14.clone] advancing a clone does not advance the original");
             let from_orig = if back { it.next_back() } else { it.next() };
-            assert!(from_clone == from_orig, "[C14.clone] clone and original yield the same next item");
+            ck!(from_clone == from_orig, "[C14.clone] clone and original yield the same next item");
             core::mem::forget(l);
         }
     };
